@@ -21,8 +21,8 @@ import (
 )
 
 const (
-	maxOnces    = 256
-	maxPtrKeys  = 1024
+	maxOnces    = 4096
+	maxPtrKeys  = 8192
 	maxPools    = 16
 	maxCounters = 96
 	maxTasks    = 8192
